@@ -219,7 +219,7 @@ def accumulators(P, rep, rule="DEP.max"):
     from .layout import forward_loop
     for cls in ("WorldBuilder::Features::SubductingPlate", "WorldBuilder::Features::Fault"):
         F = P.func(cls + "::parse_entries")
-        R = lambda n: norm.render(P, n, nocast=True).replace(" ", "")
+        R = lambda n, F=F: norm.render(P, n, nocast=True, subst=norm.naming_locals(P, F)).replace(" ", "")
         thick_updates = []
         len_updates = []
         for x in F.walk():
